@@ -63,6 +63,16 @@ def aftercache(ctx: Any) -> List[Ob]:
     return obs
 
 
+@rule('C04.PREVIOUS', 'N', expect_min=2)
+def previous(ctx: Any) -> List[Ob]:
+    """The browser classifies a pointer as new exactly when `previous` is None, so alternation needs
+    `previous` to be the cached copy if and only if one existed -- including an expired, not yet purged
+    copy (treating that as absent would produce a second Added without a Removed)."""
+    from .c06 import previous_obligations
+
+    return previous_obligations(ctx, 'C04.PREVIOUS')
+
+
 @rule('C04.PRECEDENCE', 'D', expect_min=12)
 def precedence(ctx: Any) -> List[Ob]:
     """Decision table of the pending-event merge over (new event) x (pending
@@ -213,9 +223,9 @@ def flush(ctx: Any) -> List[Ob]:
 EXPLANATION = (
     'C04.AFTERCACHE (decided): call-graph reachability -- the pre-cache handler of every browser class reaches no user callback '
     'or event queue; delivery happens only in the post-cache handler, and no cache mutation can follow the completion call. '
-    'C04.PRECEDENCE / C04.CLASSIFY (decided): finite-domain decision tables of the pending-event merge (12 cells) and of the pointer '
+    'C04.PREVIOUS (necessary): the `previous` handed to listeners is the single cache lookup result, never rewritten. C04.PRECEDENCE / C04.CLASSIFY (decided): finite-domain decision tables of the pending-event merge (12 cells) and of the pointer '
     'arm of the record handler (4 cells + 4 non-pointer types) against the oracle in the property text. C04.FLUSH (necessary '
     'condition): both delivery overrides deliver each pending item once and clear the map. Not decided: alternation and equality '
     'with the cache over all histories [X].'
 )
-RULES = [aftercache, precedence, classify, flush]
+RULES = [aftercache, previous, precedence, classify, flush]
